@@ -11,7 +11,7 @@ PROP = dict(
               dict(name='enc-writers', prop=True)],
     trusted_base=STD_TRUST + [
         "FitModel/FitFormat.lean is the specification (an independent reading of the FIT framing); the driver evaluates it (parseStream, header CRC, file CRC over header+records, sequence count, header/CRC written back to the caller) on the bytes the REAL encoder wrote for every operation of family encw",
-        "proved over the model: parseStream succeeds with one sequence per FIT value (C02_parses, via records_spec: the decoder's framing refines the spec's), data size exact, header CRC, file CRC = CRC of the whole sequence for 14-byte headers (crc_append_self), the SDK decoder accepts every successful encode (C02_decodes)",
+        "proved over the model: parseStream succeeds with one sequence per FIT value (C02_parses, via records_spec: the decoder's framing refines the spec's), data size exact, header CRC, file CRC = CRC of the whole sequence for 14-byte headers (crc_append_self), the SDK decoder accepts every successful encode (C02_decodes; like C01_wire_chain under Wire.msgsDescOK — no developer field written under a field description with an invalid base type, which the message validator guarantees: C01_e2e_validator_descs; the decoder rejects such a stream with errInvalidBaseType)",
     ],
     assumptions=["inputs satisfy FitOK (what validation lets through; C10)", "14-byte headers for the whole-sequence CRC (12-byte: KF-C02-legacy-crc)"],
 )
